@@ -993,6 +993,9 @@ func (x *workPullingProducerController) publishFailure(stage ReliableDeliverySta
 // tell sends a protocol message and classifies a send failure as transient
 // message loss absorbed by the protocol's retry owners.
 func (x *workPullingProducerController) tell(ctx *ReceiveContext, to *PID, message any) {
+	if reliableSimEnabled && reliableSimIntercept(ctx.Self(), to, message) {
+		return
+	}
 	if err := ctx.Self().Tell(context.WithoutCancel(ctx.Context()), to, message); err != nil {
 		ctx.Logger().Debugf("work-pulling producer controller for endpoint=%s lost message to %s: %v", x.producer.Name(), to.Name(), err)
 	}
